@@ -447,7 +447,28 @@ fn gen_p(ctx: &Ctx, seed: u64, run_index: u64) -> PScn {
     let mut plan: Vec<PlanEntry> = Vec::new();
     match class {
         0..=7 => {}
-        8..=14 => plan = worldp::benign_plan(&mut y, &shape, 0.35),
+        8..=14 => {
+            plan = worldp::benign_plan(&mut y, &shape, 0.35);
+            // the size a status call announces is not the size the reads deliver (the file grew or shrank in
+            // between, or is procfs-like): legal, and the program must still end by itself
+            if y.chance(0.3) {
+                let inputs: Vec<i64> = shape.iter().filter(|t| t.call == "read" && t.res > 0).map(|t| t.res).collect();
+                if !inputs.is_empty() {
+                    let k = y.usize(inputs.len());
+                    let n = inputs[k].max(0) as u64;
+                    let lie = match y.below(7) {
+                        0 => 0,
+                        1 => 1,
+                        2 => n / 2,
+                        3 => n.saturating_sub(1),
+                        4 => n + 1,
+                        5 => 2 * n + 4096,
+                        _ => y.below(2 * n + 2),
+                    };
+                    plan.push(PlanEntry { idx: k as u64, kind: PlanKind::StatSize(lie) });
+                }
+            }
+        }
         15..=18 => {
             let first_reads: Vec<u64> = shape.iter().filter(|t| t.call == "read" && t.res > 0).map(|t| t.idx).collect();
             if !first_reads.is_empty() && y.chance(0.12) {
@@ -459,6 +480,13 @@ fn gen_p(ctx: &Ctx, seed: u64, run_index: u64) -> PScn {
                 } else {
                     plan.push(PlanEntry { idx, kind: PlanKind::Eof });
                 }
+            } else if y.chance(0.1) {
+                // a disk that fills up and stays full: the simulated disk takes only so many more bytes
+                let outputs = shape.iter().filter(|t| t.call == "write").count() as u64;
+                plan.push(PlanEntry { idx: 0, kind: PlanKind::Quota(y.below(2500 * outputs.max(1) + 1)) });
+            } else if y.chance(0.06) {
+                // the status call on an input fails (ENOSYS makes std fall back to another call)
+                plan.push(PlanEntry { idx: y.below(2), kind: PlanKind::StatErr(*y.pick(&[worldp::EIO, worldp::EACCES, worldp::ENOSYS, worldp::ENOMEM])) });
             } else if let Some((e, _)) = worldp::hard_fault(&mut y, &shape) {
                 // a disk that fills up (or an I/O error) in the middle of a transfer: the call first moves only
                 // part of the data, the continuation then fails
@@ -489,12 +517,14 @@ fn gen_p(ctx: &Ctx, seed: u64, run_index: u64) -> PScn {
 /// tracked call `(j % SWEEP_COMBOS) / 7` x kind `(j % SWEEP_COMBOS) % 7`
 /// (EINTR, short 1 byte, short half, three call-specific hard errors, crash).
 pub const SWEEP_CALLS: u64 = 23; // 2 inputs x 4 calls + 5 outputs x 3 calls
-pub const SWEEP_COMBOS: u64 = SWEEP_CALLS * 7;
+/// + 2 inputs x 6 announced sizes + 2 inputs x 2 failing status calls + 12 disk quotas
+pub const SWEEP_EXTRA: u64 = 12 + 4 + 12;
+pub const SWEEP_COMBOS: u64 = SWEEP_CALLS * 7 + SWEEP_EXTRA;
 
 fn gen_p_sweep(ctx: &Ctx, j: u64) -> PScn {
     let base = j / SWEEP_COMBOS;
     let combo = j % SWEEP_COMBOS;
-    let (call, kind) = (combo / 7, combo % 7);
+    let (call, kind) = if combo < SWEEP_CALLS * 7 { (combo / 7, combo % 7) } else { (u64::MAX, combo - SWEEP_CALLS * 7) };
     let seed = crate::rng::mix(&[ctx.verif_seed, 0x5357_4545_50, base]);
     let mut w = Rng::for_stream(seed, stream::WORKLOAD);
     let mut s = Rng::for_stream(seed, stream::SCHEDULE);
@@ -524,7 +554,22 @@ fn gen_p_sweep(ctx: &Ctx, j: u64) -> PScn {
     }
     let shape = predicted_shape(&argv, &image);
     let mut plan = Vec::new();
-    if let Some(t) = shape.get(call as usize) {
+    if call == u64::MAX {
+        let extra = kind;
+        let in_size = |k: u64| shape.iter().filter(|t| t.call == "read" && t.res > 0).nth(k as usize).map(|t| t.res.max(0) as u64).unwrap_or(0);
+        if extra < 12 {
+            let (k, which) = (extra / 6, extra % 6);
+            let n = in_size(k);
+            let lie = [0, 1, n / 2, n.saturating_sub(1), n + 1, 2 * n + 4096][which as usize];
+            plan.push(PlanEntry { idx: k, kind: PlanKind::StatSize(lie) });
+        } else if extra < 16 {
+            let e = extra - 12;
+            plan.push(PlanEntry { idx: e / 2, kind: PlanKind::StatErr([worldp::EIO, worldp::ENOSYS][(e % 2) as usize]) });
+        } else {
+            let q = [0u64, 1, 100, 1000, 2000, 3000, 4000, 6000, 10000, 20000, 40000, 80000][(extra - 16) as usize];
+            plan.push(PlanEntry { idx: 0, kind: PlanKind::Quota(q) });
+        }
+    } else if let Some(t) = shape.get(call as usize) {
         let is_create = (t.req & 0o100) != 0;
         let hard = |n: usize| -> i32 {
             match t.call.as_str() {
